@@ -496,7 +496,7 @@ func runC10(r *Run) {
 		nFn, bad := 0, 0
 		for _, fn := range P.Funcs {
 			pk := fnPkgPath(fn)
-			if isTestSupport(P, fn) || fn.Synthetic != "" || !(strings.Contains(pk, "/x/erc20") || strings.Contains(pk, "/x/bank") || strings.Contains(pk, "/x/liquidvesting") || strings.Contains(pk, "/x/ucdao") || strings.Contains(pk, "/precompiles/") || strings.Contains(pk, "/x/vesting") || strings.Contains(pk, "/x/coinomics")) {
+			if isTestSupport(P, fn) || fn.Synthetic != "" || !isHaqqPath(pk) || strings.Contains(pk, "/testutil") || strings.HasPrefix(strings.TrimPrefix(pk, haqqMod+"/"), "rpc") || strings.HasPrefix(strings.TrimPrefix(pk, haqqMod+"/"), "cmd") {
 				continue
 			}
 			nFn++
@@ -512,7 +512,7 @@ func runC10(r *Run) {
 		if bad == 0 {
 			r.OK("R13", "amount-handling packages#no-BigIntMut", "", fmt.Sprintf("%d functions, none takes the mutable number out of an amount", nFn))
 		}
-		r.Floor("R13", "functions of the amount-handling packages", nFn, 300)
+		r.Floor("R13", "functions of the amount-handling packages", nFn, 1500)
 	}
 	r.Rule("R14", "FLOW.automatic-conversion-is-bounded-by-the-packet + TABLE.genesis-duplicates-by-decoded-address: (a) the conversion that runs automatically on an IBC receive converts what the packet delivered — the coin of the MsgConvertCoin built in OnRecvPacket derives from the packet's own amount (GetReceivedCoin) and not from a balance read: the receiver is chosen by the remote sender, and a channel's escrow account is an ordinary, unblocked account, so 'the receiver's whole balance' lets one unit sent to the escrow address convert the entire escrow and strand every outstanding voucher; (b) the erc20 genesis recognises a duplicated contract by its decoded address (a map keyed by common.Address), not by the address string as spelled")
 	if rp, ok := P.FnOK("(" + erc20K + ".Keeper).OnRecvPacket"); ok {
